@@ -141,8 +141,19 @@ pub struct Droppy {
     heap: Box<u64>,
     reg: Arc<Reg>,
 }
+/// Fault injection: the n-th clone of a counted element from now on fails (panics); -1 = off.
+static CLONE_BOMB: std::sync::atomic::AtomicI64 = std::sync::atomic::AtomicI64::new(-1);
+
 impl Clone for Droppy {
     fn clone(&self) -> Self {
+        match CLONE_BOMB.load(Ordering::SeqCst) {
+            0 => {
+                CLONE_BOMB.store(-1, Ordering::SeqCst);
+                panic!("injected: clone of an element fails");
+            }
+            n if n > 0 => CLONE_BOMB.store(n - 1, Ordering::SeqCst),
+            _ => {}
+        }
         self.reg.inc(self.id);
         Droppy { id: self.id, heap: Box::new(*self.heap), reg: self.reg.clone() }
     }
@@ -579,6 +590,16 @@ fn apply<T: Elem>(st: &mut State<T>, step: &Step, counts: &mut Vec<&'static str>
                 return Ok("Clone noop".into());
             }
             let src = st.slots[a].as_ref().unwrap();
+            // an element's clone may fail midway: nothing of the half-made copy may stay behind
+            let bomb = step.arg(2);
+            if T::KIND == 3 && bomb > 0 && (bomb as usize) <= src.model.len() {
+                counts.push("fault.element_clone_panics");
+                CLONE_BOMB.store(bomb - 1, Ordering::SeqCst);
+                let r = catch_unwind(AssertUnwindSafe(|| track(|| src.v.clone())));
+                CLONE_BOMB.store(-1, Ordering::SeqCst);
+                vcheck!(r.is_err(), "vec.unexpected_panic", "clone", "the failing element clone did not surface");
+                return Ok(format!("Clone {}->{} failed at element {}", a, b, bomb - 1));
+            }
             let v = track(|| src.v.clone());
             let model = src.model.clone();
             // a clone is made by this module, whatever module made the original
@@ -673,6 +694,7 @@ fn exec_t<T: Elem>(plan: &Plan, ctx: &mut RunCtx) -> VResult {
     let npool = plan.cfg("pool", 2).clamp(1, 4) as usize;
     POLICY.store(plan.cfg("policy", 0).rem_euclid(4) as u64, Ordering::Relaxed);
     NULL_EMPTY.store(0, Ordering::Relaxed);
+    CLONE_BOMB.store(-1, Ordering::SeqCst);
     arena(|a| {
         a.blocks.clear();
         a.errors.clear();
@@ -795,7 +817,7 @@ impl Engine for VecEngine {
                     p.push(t, op, &[s0, pos, oob as i64]);
                 }
                 "Reserve" => p.push(t, op, &[s0, *rng.pick(&[0, 1, 1, 2, 5, 17, 40]), party]),
-                "Clone" | "CloneFrom" => p.push(t, op, &[s0, rng.below(pool as u64) as i64]),
+                "Clone" | "CloneFrom" => p.push(t, op, &[s0, rng.below(pool as u64) as i64, if rng.chance(1, 3) { rng.range(1, 4) } else { 0 }]),
                 "Write" => p.push(t, op, &[s0, rng.range(0, 30), party]),
                 "Drop" => p.push(t, op, &[s0, party]),
                 _ => p.push(t, op, &[s0]),
